@@ -5,7 +5,7 @@ refinement of the assignment Spec).  Correspondence: `imgstate` histories (rando
 interleaved with drawing on a long-lived pool of six images), every field of the image structs
 (read through pixman-private.h) against the Lean model after every call.  Oracle: fresh-replica
 rendering and derived-state comparison inside the harness; cached dispatch against a plain scan."""
-import collections, json, os, re, shutil, subprocess
+import collections, hashlib, json, os, re, shutil, subprocess
 from concurrent.futures import ProcessPoolExecutor
 from engine.core import count_lines, log, VERIF
 
@@ -110,6 +110,28 @@ def shrink(exe, pixdrv, d, disable, line, kind):
     return mk(ops)
 
 
+def run_prefix(exe, pixdrv, d, disable, seed, upto):
+    """re-generate the first `upto` histories of a stream in ONE process (as the stream run did) and return
+    (request, impl, model, oracle) of the last one"""
+    os.makedirs(d, exist_ok=True)
+    ops, impl, orc, model = (os.path.join(d, n) for n in ("p-ops.txt", "p-impl.txt", "p-orc.txt", "p-model.txt"))
+    subprocess.run([exe, "gen", str(seed), str(upto), ops, impl, orc], env=env_for(disable), stdout=subprocess.DEVNULL, stderr=subprocess.DEVNULL)
+    last = lambda p: (open(p).read().rstrip("\n").split("\n") or [""])[-1] if os.path.exists(p) else ""
+    req = last(ops)
+    with open(os.path.join(d, "p-one.txt"), "w") as f:
+        f.write(req + "\n")
+    with open(os.path.join(d, "p-one.txt")) as fi:
+        m = subprocess.run([pixdrv, "imgstate"], stdin=fi, stdout=subprocess.PIPE, stderr=subprocess.PIPE, text=True)
+    n_ok = count_lines(ops) == count_lines(impl) == count_lines(orc) == upto
+    return req, last(impl), m.stdout.strip(), (last(orc) if n_ok else "CRASH stream prefix incomplete")
+
+
+def fails_as(kind, a, m, o):
+    if kind == "oracle":
+        return o.startswith(("MISMATCH", "CRASH"))
+    return a != m or a == "bad-op"
+
+
 def first_diff(a, m):
     sa, sm = a.split(";"), m.split(";")
     for k, (x, y) in enumerate(zip(sa, sm)):
@@ -164,10 +186,12 @@ def _job(args):
         segs = opsegs(line)
         res["calls"] += len(segs)
         if o.startswith("MISMATCH"):
-            res["findings"].append(dict(kind="oracle", config=cname, disable=disable, line=line, text=o, cache=False))
+            res["findings"].append(dict(kind="oracle", config=cname, disable=disable, line=line, text=o, cache=False,
+                                        stream_seed=seed if kind == "gen" else None, stream_line=i + 1))
         elif a != m or a == "bad-op":
             k, x, y, fld = first_diff(a, m)
             res["findings"].append(dict(kind="model", config=cname, disable=disable, line=line, cache=False, opindex=k,
+                                        stream_seed=seed if kind == "gen" else None, stream_line=i + 1,
                                         text=f"op #{k} ({segs[k] if k < len(segs) else '?'}): library `{x}` model `{y}`"))
         if cname != "default":
             continue
@@ -187,7 +211,8 @@ def _job(args):
                         continue
                     i_, der = int(mm.group(1)), mm.group(3)
                     if dirty.get(i_, True) and i_ in validated:
-                        res["reval"].add((line.split(";")[1 + 2 * i_].strip() if i_ < 6 else "", der))
+                        key = (line.split(";")[1 + 2 * i_].strip() if i_ < 6 else "") + "|" + der
+                        res["reval"].add(int.from_bytes(hashlib.blake2b(key.encode(), digest_size=8).digest(), "big"))
                     validated.add(i_)
                     dirty[i_] = False
             else:
@@ -199,9 +224,51 @@ def _job(args):
                 dirty[i_] = now
         if len(res["samples"]) < 1 and len(segs) > 8 and i % 211 == 7:
             res["samples"].append(line[:600])
-    res["reval"] = list(res["reval"])[:100000]
+    # content hashes, deterministic in the request set (no dependence on set iteration order); long streams keep the
+    # 1/8 of the hashes below 2^61 — a lower bound on the distinct count that every run of a seed reproduces exactly
+    res["reval"] = sorted(h for h in res["reval"] if n <= 10000 or h < (1 << 61))
     shutil.rmtree(d, ignore_errors=True)
     return res
+
+
+def confirm(exe, pixdrv, sd, f):
+    """Re-run a finding of a stream before it is reported: alone (then shrink), else as a stream prefix in one
+    process.  The text observed in the stream is never replaced by the outcome of a run that passes."""
+    line = f["line"]
+    if f["kind"] in ("oracle", "model") and line.startswith("hist"):
+        try:
+            a, m, o = run_one(exe, pixdrv, sd, f["disable"], line)
+            if fails_as(f["kind"], a, m, o):
+                # reproducible as a single request: shrink it; the reported text is that of the shrunk request,
+                # and only if the shrunk request still fails (otherwise the observed request and text are kept)
+                small = shrink(exe, pixdrv, sd, f["disable"], line, f["kind"])
+                a2, m2, o2 = run_one(exe, pixdrv, sd, f["disable"], small)
+                if fails_as(f["kind"], a2, m2, o2):
+                    line, a, m, o = small, a2, m2, o2
+                f = dict(f, line=line, impl=a, model=m, reproduced="single request")
+                if f["kind"] == "oracle":
+                    f["text"] = o
+                else:
+                    k, x, y, _ = first_diff(a, m)
+                    segs = opsegs(line)
+                    f["text"] = f"op #{k} ({segs[k] if k < len(segs) else '?'}): library `{x}` model `{y}`"
+            elif f.get("stream_seed") is not None:
+                # not reproducible alone: does it depend on the histories executed before it in the same process?
+                req, a, m, o = run_prefix(exe, pixdrv, sd, f["disable"], f["stream_seed"], f["stream_line"])
+                if req == line and fails_as(f["kind"], a, m, o):
+                    f = dict(f, impl=a, model=m, reproduced="stream prefix only", in_context=True,
+                             text=f["text"] + f" [NOT reproducible as a single request (alone it passes); reproducible by replaying the "
+                                              f"first {f['stream_line']} histories of stream seed {f['stream_seed']} in one process: the outcome "
+                                              f"depends on process state left by earlier histories]")
+                else:
+                    f = dict(f, reproduced="no", unreproducible=True,
+                             text=f["text"] + " [NOT reproducible: the request alone passes and a re-run of the stream prefix passes too — "
+                                              "the library or the harness is nondeterministic]")
+            else:
+                f = dict(f, reproduced="no", unreproducible=True, text=f["text"] + " [NOT reproducible on a second run of the same request]")
+        except Exception as e:      # confirmation / shrinking is best effort; the observed finding is reported as it was seen
+            f = dict(f, shrink_error=str(e))
+    return f
 
 
 def signature(kind, line, text):
@@ -244,7 +311,7 @@ def run(ctx):
         uses += r["uses"]
         lookups += r["lookups"]
         hist.update(r["hist"]); branch.update(r["branch"])
-        reval.update(tuple(x) for x in r["reval"])
+        reval.update(r["reval"])
         samples += r["samples"]
         findings += r["findings"]
     ctx.cov["evaluations"] = calls + lookups
@@ -252,7 +319,8 @@ def run(ctx):
     ctx.cov["traces_validated_against_impl"] = hist_n
     ctx.cov["rule"] = ("evaluations = API calls of all histories (both chains) + cached lookups; distinct_nontrivial = distinct "
                        "(image creation, derived state) pairs observed when an image is validated AGAIN after a property change "
-                       "(the situation the property is about); every call's full image state is compared with the Lean model, "
+                       "(the situation the property is about; content-hashed, streams longer than 10000 histories count only the 1/8 with a hash "
+                       "below 2^61: a reproducible lower bound); every call's full image state is compared with the Lean model, "
                        "every use is re-rendered on a fresh replica of the whole pool")
     ctx.cov["samples"] = samples[:4]
     ctx.extra["operation_histogram"] = dict(hist)
@@ -263,19 +331,12 @@ def run(ctx):
     # report: shrink the first few findings, one violation per signature
     seen = set()
     for f in findings[:40]:
-        line = f["line"]
-        if f["kind"] in ("oracle", "model") and line.startswith("hist"):
-            try:
-                line = shrink(exe, pixdrv, str(ctx.scratch / "shrink"), f["disable"], line, f["kind"])
-                a, m, o = run_one(exe, pixdrv, str(ctx.scratch / "shrink"), f["disable"], line)
-                f = dict(f, line=line, text=(o if f["kind"] == "oracle" else f["text"]), impl=a, model=m)
-                if f["kind"] == "model":
-                    k, x, y, _ = first_diff(a, m)
-                    segs = opsegs(line)
-                    f["text"] = f"op #{k} ({segs[k] if k < len(segs) else '?'}): library `{x}` model `{y}`"
-            except Exception as e:      # shrinking is best effort
-                f = dict(f, shrink_error=str(e))
+        f = confirm(exe, pixdrv, str(ctx.scratch / "shrink"), f)
         sig = signature(f["kind"], f["line"], f["text"])
+        if f.get("in_context"):
+            sig += ":in-stream-context"
+        if f.get("unreproducible"):
+            sig = f"imgstate-{f['kind']}:unreproducible"
         if sig in seen:
             continue
         seen.add(sig)
@@ -286,8 +347,11 @@ def run(ctx):
                 "stream": "correspondence stream broke: "}.get(f["kind"], "") + f["text"]
         ctx.violation(dict(kind="imgstate-" + f["kind"], request=f["line"], config=f["config"], PIXMAN_DISABLE=f["disable"],
                            impl=f.get("impl"), model=f.get("model"), cache=f.get("cache", False),
+                           stream_seed=f.get("stream_seed"), stream_line=f.get("stream_line"), in_context=bool(f.get("in_context")),
+                           reproduced=f.get("reproduced"), observed_in_stream=f.get("text"),
                            how_to_replay="bin/check C14 --replay <this file>"),
-                      signature=sig, what=what[:1500], found_input=(f["kind"] != "stream" or f["line"] != "(stream)"))
+                      signature=sig, what=what[:1500],
+                      found_input=((f["kind"] != "stream" or f["line"] != "(stream)") and not f.get("unreproducible")))
     if broken and not ctx.violations:
         ctx.broken_obligations_verdict(broken, f"{hist_n} histories ({calls} calls, {uses} uses re-rendered on fresh replicas) and "
                                                f"{lookups} cached lookups found no failing input")
@@ -298,6 +362,9 @@ def run(ctx):
         "images of the pool are long-lived: destroying an image that has an alpha map leaves alpha_count of the map stale (C20 treats alpha_count as an over-approximation)",
         "the fast-path cache mechanics (slot order) are not observable; only cached results are compared (H3 proves they cannot differ)",
         "pixel rendering itself is not modelled here (C01/C08); the fresh-replica oracle is what ties derived state to rendered bytes",
+        "the address of a pixel buffer is an input, not history: a replica's buffers have the placement (offset in a 4096-byte page) of the "
+        "long-lived ones when the call reads and writes the same image (overlapping self-composites through the tiled rotate fast paths "
+        "split the work at cache-line boundaries of the destination address); otherwise the replicas are deliberately moved by 0..60 bytes",
     ]
 
 
@@ -309,6 +376,11 @@ def replay(ctx, path):
     subprocess.run(["lake", "build", "pixdrv"], cwd=str(VERIF / "lean"), stdout=subprocess.DEVNULL)
     line = obj["request"]
     a, m, o = run_one(exe, pixdrv, str(ctx.scratch / "replay"), obj.get("PIXMAN_DISABLE", ""), line, cache=obj.get("cache", False))
+    if obj.get("in_context") and obj.get("stream_seed") is not None and not (o.startswith(("MISMATCH", "CRASH")) or a != m):
+        log(f"the request alone passes; replaying the first {obj['stream_line']} histories of stream seed {obj['stream_seed']} in one process")
+        req, a, m, o = run_prefix(exe, pixdrv, str(ctx.scratch / "replay"), obj.get("PIXMAN_DISABLE", ""), obj["stream_seed"], obj["stream_line"])
+        if req != line:
+            log("note: the generator no longer produces this request at that position of the stream")
     log(f"request: {line[:2000]}")
     log(f"oracle : {o}")
     if a != m:
